@@ -45,6 +45,14 @@ RULE = ("segmetrics: 1-3 chromosomes, sorted bin tables (abutting / gapped / ove
         "S.segmetrics.cns into the working directory, bintest writes to standard output), the table handed to the "
         "writer is judged like an API "
         "result, the written file must read back equal to it at 1e-5 and the bootstrap interval must equal the API's exactly. "
+        "glue (ops glue / cmd, Model/StatsGlue.lean): do_segmetrics on small tables whose SEGMENT table already carries columns "
+        "-- statistics of an earlier run, ~45 % of them among the statistics requested now (must be recomputed: clause "
+        "requested_statistic_recomputed; every column of the result is tagged own / fresh by comparison with the input and "
+        "with a run on the same tables without those columns), unrequested ones and cn/depth/baf (must come back as they were) --, "
+        "a statistic named twice, interval_stats empty / in either order / with repeats; observables are the requested and "
+        "the own columns only (not column order, not further columns). `cnvkit.py segmetrics` decisions: alpha 0, -0.25, 1.5 "
+        "refused, no statistic flag -> nothing written (an unchanged table would be accepted too), otherwise the output "
+        "file is -o or <sample id>.segmetrics.cns (sample ids S, tumor1, a.b). "
         "not generated: bintest without segments (no segment mean to speak of), an empty segment table given to bintest "
         "(proposed_fixes/C17-bintest-empty-segments.md), segment tables lacking probes/weight columns. "
         "non-trivial = some segment has >= 2 bins and a statistic is requested / some bin is tested / length >= 2; "
@@ -505,6 +513,10 @@ def run_impl(case):
         if not (len(arg) == len(keep) and all(float(x) == float(y) for x, y in zip(list(arg), list(keep)))):
             raise AssertionError("p_adjust_bh changed its argument")
         return [_num(x) for x in np.asarray(q, dtype=float)]
+    if op == "glue":
+        return _run_glue(i)
+    if op == "cmd":
+        return _run_cmd(i)
     cn = _mk_bins(i)
     sg = _mk_segs(i)
     cn0, sg0 = cn.data.copy(), sg.data.copy()
@@ -553,10 +565,182 @@ def run_impl(case):
     raise ValueError(op)
 
 
+# ---------------------------------------------------------------------------------------------
+# glue of do_segmetrics / _cmd_segmetrics (ops `glue`, `cmd`; Model/StatsGlue.lean)
+
+BASE_SEG = ["chromosome", "start", "end", "gene", "log2", "probes", "weight"]
+STALE = 1000.0  # a pre-existing column holds 1000 + row number: no statistic of these tables comes near it
+
+
+def _glue_tables(i, with_old):
+    from cnvlib.cnary import CopyNumArray as CNA
+    cn = _mk_bins(i)
+    old = list(i["old_cols"]) if with_old else []
+    rows = [tuple(r) + tuple(STALE + k for _c in old) for k, r in enumerate(i["segs_f"])]
+    sg = CNA.from_rows(rows, columns=BASE_SEG + old, meta_dict={"sample_id": "S"})
+    return cn, sg
+
+
+def _run_glue(i):
+    """do_segmetrics on a segment table that already carries some columns (statistics of an earlier run, some of
+    them requested again) and on the same table without them: every column of the result is tagged `own` (holds
+    what the input held), `fresh` (holds what the run without the old columns computed) or `other`"""
+    import numpy as np
+    from cnvlib import segmetrics
+    kw = dict(location_stats=list(i["loc"]), spread_stats=list(i["spread"]), interval_stats=list(i["interval"]),
+              alpha=i["alpha_f"], bootstraps=i["bootstraps"])
+    cn, sg = _glue_tables(i, True)
+    sg0 = sg.data.copy()
+    out = segmetrics.do_segmetrics(cn, sg, **kw).data
+    cn2, sg2 = _glue_tables(i, False)
+    ref = segmetrics.do_segmetrics(cn2, sg2, **kw).data
+
+    def same(a, b):
+        a, b = np.asarray(a), np.asarray(b)
+        if a.shape != b.shape:
+            return False
+        if a.dtype.kind in "fiu" and b.dtype.kind in "fiu":
+            return bool(np.array_equal(a.astype(float), b.astype(float), equal_nan=True))
+        return bool((a == b).all())
+    cols = []
+    for c in out.columns:
+        if c in ref.columns and c not in BASE_SEG and same(out[c], ref[c]):
+            tag = "fresh"
+        elif c in sg0.columns and same(out[c], sg0[c]):
+            tag = "own"
+        else:
+            tag = "other"
+        cols.append([str(c), tag])
+    return {"columns": cols, "input_unmutated": bool(sg.data.equals(sg0))}
+
+
+def _run_cmd(i):
+    """`cnvkit.py segmetrics ...` in-process: what did the command function decide?"""
+    import logging
+    import shutil
+    import tempfile
+    from cnvlib import commands
+    from skgenome import tabio
+    d = tempfile.mkdtemp(prefix="c17cmd", dir="/var/tmp")
+    quiet = logging.root.manager.disable
+    logging.disable(logging.CRITICAL)
+    cwd = os.getcwd()
+    saved = commands.tabio
+    try:
+        cn, sg = _glue_tables(dict(i, old_cols=[]), False)
+        fb, fs = os.path.join(d, i["sample"] + ".cnr"), os.path.join(d, i["sample"] + ".cns")
+        tabio.write(cn, fb)
+        tabio.write(sg, fs)
+        captured = []
+
+        class _Tab:
+            def __getattr__(self, name):
+                return getattr(tabio, name)
+
+            def write(self, garr, outfname=None, *a, **k):
+                captured.append((garr, outfname))
+        commands.tabio = _Tab()
+        argv = ["segmetrics", fb, "-s", fs, "-a", repr(i["alpha_f"]), "-b", "4"]
+        argv += [STAT_FLAG[nm] for nm in list(i["loc"]) + list(i["spread"])] + ["--" + nm for nm in i["interval"]]
+        if i["output"] is not None:
+            argv += ["-o", i["output"]]
+        os.chdir(d)
+        args = commands.parse_args(argv)
+        try:
+            args.func(args)
+        except RuntimeError:
+            return {"decision": "refuse", "path": None}
+        if not captured:
+            return {"decision": "nothing", "path": None}
+        if len(captured) != 1 or not isinstance(captured[0][1], str):
+            raise AssertionError("cnvkit.py segmetrics wrote more than one table / not to a file name")
+        out = captured[0][0].data
+        plain = list(out.columns) == BASE_SEG and _own_rows(out) == _own_rows(sg.data)
+        return {"decision": "write", "path": captured[0][1], "plain": bool(plain)}
+    finally:
+        commands.tabio = saved
+        os.chdir(cwd)
+        logging.disable(quiet)
+        shutil.rmtree(d, ignore_errors=True)
+
+
+def _judge_glue(case, impl, resp):
+    i = case["in"]
+    if case["op"] == "cmd":
+        m = resp["out"]
+        if m["decision"] == "nothing" and impl["decision"] == "write" and impl.get("plain"):
+            return [], [], None  # handing back the unchanged table instead of nothing is as good
+        dis = []
+        if m["decision"] != impl["decision"] or (m["decision"] == "write" and m["path"] != impl["path"]):
+            dis.append(f"command decision: model {m} impl {impl}")
+        return [], dis, None
+    spec = list(resp.get("spec") or [])
+    if not impl.get("input_unmutated", True):
+        spec.append("segment_columns_unchanged")
+    # observables: the requested columns and the segment table's own ones (column order and any further column the
+    # property says nothing about are not compared)
+    watch = set(resp["requested"]) | set(i["seg_cols"])
+    model = {c: t for c, t in resp["out"] if c in watch}
+    real = {c: t for c, t in impl["columns"] if c in watch}
+    dis = [] if model == real else [f"columns: model {sorted(model.items())} impl {sorted(real.items())}"]
+    return spec, dis, None
+
+
+INTERVALS = [[], [], ["ci"], ["pi"], ["ci", "pi"], ["pi", "ci"], ["pi", "pi"], ["ci", "pi", "ci"]]
+
+
+def _glue_case(rng):
+    bins, segs = _tables(rng, lambda: rng.choice([0, 1, 2, 3, 5]), api=True)
+    if not bins:
+        bins, segs = _tables(rng, lambda: 3, api=True)
+    i = _pack(bins, segs, False)
+    loc = [s for s in LOC if rng.random() < 0.5]
+    spread = [s for s in SPREAD if s != "bivar" and rng.random() < 0.4]
+    if loc and rng.random() < 0.2:
+        loc.append(rng.choice(loc))  # `--mean --mean`
+    rng.shuffle(loc)
+    rng.shuffle(spread)
+    interval = list(rng.choice(INTERVALS))
+    made = loc + spread + (["ci_lo", "ci_hi"] if "ci" in interval else []) + (["pi_lo", "pi_hi"] if "pi" in interval else [])
+    pool = list(dict.fromkeys(made)) + [c for c in ["cn", "depth", "baf", "sem", "mean", "ci_lo", "pi_hi", "iqr"]
+                                        if c not in made]
+    old = [c for c in pool if rng.random() < 0.45]
+    rng.shuffle(old)
+    alpha = rng.choice([0.5, 0.25, 0.05, 0.1])
+    i.update({"loc": loc, "spread": spread, "interval": interval, "old_cols": old, "seg_cols": BASE_SEG + old,
+              "alpha": frac(alpha), "alpha_f": alpha, "bootstraps": rng.choice([3, 8])})
+    return {"op": "glue", "tag": "glue-stale" if set(old) & set(made) else "glue", "in": i}
+
+
+def _cmd_case(rng, k):
+    b = [["chr1", 0, 100, "a", 0.5, 0.5], ["chr1", 100, 200, "b", 1.0, 0.5], ["chr2", 0, 50, "c", -1.0, 0.25]]
+    s = [["chr1", 0, 200, "-", 0.25, 2, 1.0], ["chr2", 0, 50, "-", -1.0, 1, 1.0]]
+    i = _pack(b, s, False)
+    alpha = [0.0, -0.25, 1.5, 0.5, 0.25, 0.05, 0.5, 0.125][k % 8]
+    nostat = k % 3 == 1
+    loc = [] if nostat else [x for x in LOC if rng.random() < 0.5]
+    spread = [] if nostat else [x for x in SPREAD if x != "bivar" and rng.random() < 0.3]
+    interval = [] if nostat else list(rng.choice(INTERVALS))
+    if not nostat and not (loc or spread or interval):
+        loc = ["median"]
+    sample = rng.choice(["S", "tumor1", "a.b"])
+    output = rng.choice([None, None, "out.cns", "x/../res.tsv"]) if k % 5 else None
+    if output and "/" in output:
+        output = "res.tsv"
+    i.update({"loc": loc, "spread": spread, "interval": interval, "alpha": frac(alpha), "alpha_f": alpha,
+              "sample": sample, "output": output})
+    return {"op": "cmd", "tag": "cmd-refuse" if not 0 < alpha <= 1 else "cmd-nostat" if nostat else "cmd", "in": i}
+
+
 def to_line(case, impl):
     i = case["in"]
     line = {"op": case["op"], "in": {k: v for k, v in i.items() if not k.endswith("_f") and k not in PY_ONLY}}
     err = isinstance(impl, dict) and "__error__" in impl
+    if case["op"] in ("glue", "cmd"):
+        line["in"] = {k: i[k] for k in ("seg_cols", "loc", "spread", "interval", "alpha", "output", "sample") if k in i}
+        if not err:
+            line["impl"] = impl
+        return line
     if case["op"] == "bh":
         if not err:
             line["impl"] = impl
@@ -614,6 +798,8 @@ def judge(case, impl, resp):
     if "error" in resp:
         return [], ["model error: " + resp["error"]], None
     op = case["op"]
+    if op in ("glue", "cmd"):
+        return _judge_glue(case, impl, resp)
     if op == "bh":
         spec = list(resp.get("spec") or [])
         dis = []
@@ -686,6 +872,10 @@ def classify_smoothed_ci_range(case, impl, resp):
 
 def nontrivial(case, impl, resp):
     op = case["op"]
+    if op == "glue":
+        return bool(case["in"]["old_cols"]) and bool(case["in"]["loc"] or case["in"]["spread"] or case["in"]["interval"])
+    if op == "cmd":
+        return True
     if op == "bh":
         return len(case["in"]["p"]) >= 2
     if op == "bintest":
@@ -1176,12 +1366,28 @@ def gen_cases(rng, tier):
             c["in"].update({"alpha_f": bad, "alpha": frac(bad), "two_over_alpha": frac(0), "cli_implicit": []})
             c["tag"] = "cli-bad-alpha"
             cases.append(c)
+    # glue of do_segmetrics / _cmd_segmetrics: result columns (pre-existing statistic columns requested again, repeated
+    # names, interval statistics in any order / repeated) and the command function's decisions; own generator, seeded
+    # last, so that every case above is the one it was
+    grng = random.Random(crng.getrandbits(64))
+    n_glue, n_cmd = {"quick": (70, 24), "thorough": (500, 64), "search": (60, 0)}[tier]
+    cases += [_glue_case(grng) for _ in range(n_glue)]
+    cases += [_cmd_case(grng, k) for k in range(n_cmd)]
     return cases
 
 
 def shrink(case):
     import copy
     i = case["in"]
+    if case["op"] in ("glue", "cmd"):
+        for key in ("old_cols", "loc", "spread", "interval"):
+            for k in range(len(i.get(key, []))):
+                j = copy.deepcopy(i)
+                del j[key][k]
+                if key == "old_cols":
+                    j["seg_cols"] = BASE_SEG + j["old_cols"]
+                yield {"op": case["op"], "tag": case.get("tag"), "in": j}
+        return
     if case["op"] == "bh":
         p = i["p_f"]
         for k in range(len(p)):
